@@ -488,6 +488,95 @@ func runLongLived(rec *vcommon.Rec, carrier, mode string, d time.Duration) {
 	rec.Stat("long_lived_transfers_completed:"+carrier+":"+mode, 1)
 }
 
+// runAged: the sequence numbers of the DNS carrier belong to the session, not to a logical connection. One connection
+// uploads enough to take the session's packet counter past 65535 (about 12.6 MB at 193 bytes a query; 14 MiB are written),
+// then a second connection of the same session moves 64 KiB each way. Compared online, complete at the end.
+func runAged(rec *vcommon.Rec, carrier string, total int64) {
+	c := map[string]interface{}{"scenario": "aged-session", "carrier": carrier, "bytes": total}
+	rec.Mark(c)
+	p, err := e2e.Start(e2e.Options{Carrier: carrier, Tag: "y"})
+	if err != nil {
+		rec.Violation(carrier+":unix:setup-failed", c, err.Error())
+		return
+	}
+	defer p.Close()
+	win := e2e.StallWindow()
+	if win < 50*time.Second {
+		win = 50 * time.Second // longer than the multiplexer's keep-alive time-out: a session that died silently ends the streams itself
+	}
+	one := func(what string, up, down int64, k uint64) *e2e.Failure {
+		app, tgt, o, err := p.Open("echo")
+		if err != nil || o != e2e.Done {
+			if o == e2e.Inconclusive {
+				return &e2e.Failure{Kind: "busy at open", Inconclusive: true}
+			}
+			return &e2e.Failure{Kind: what + ":open-failed", Info: map[string]interface{}{"err": fmt.Sprint(err)}}
+		}
+		defer app.Close()
+		defer tgt.Close()
+		ab := &e2e.Stream{Key: k, Len: up, Seg: func() int { return 32768 }}
+		ba := &e2e.Stream{Key: k + 1, Len: down, Seg: func() int { return 32768 }}
+		var f *e2e.Failure
+		var done <-chan struct{}
+		if down == 0 {
+			// one direction, then the writer closes: the reader must get all of it and the end of the stream
+			var wf, rf *e2e.Failure
+			wd := e2e.Go(func() {
+				if _, err := e2e.WriteStream(app, ab); err != nil {
+					wf = &e2e.Failure{Kind: "c2t:write-error", Info: map[string]interface{}{"err": err.Error()}}
+					return
+				}
+				app.Close()
+			})
+			rd := e2e.Go(func() {
+				if _, rf = e2e.ReadStream(tgt, ab, []uint64{ab.Key}); rf != nil {
+					rf.Kind = "c2t:" + rf.Kind
+					return
+				}
+				rf = e2e.ExpectEOF(tgt, "c2t")
+			})
+			done = e2e.Go(func() {
+				<-wd
+				<-rd
+				if f = wf; f == nil {
+					f = rf
+				}
+			})
+		} else {
+			done = e2e.Go(func() { f = e2e.Duplex(app, tgt, ab, ba, "c2t", "t2c", nil) })
+		}
+		switch e2e.WaitW(done, win) {
+		case e2e.Stalled:
+			return &e2e.Failure{Kind: what + ":stalled", Info: map[string]interface{}{"goroutines": e2e.Clip(e2e.Stacks(), 40000)}}
+		case e2e.Inconclusive:
+			return &e2e.Failure{Kind: "busy at watchdog", Inconclusive: true}
+		}
+		if f != nil {
+			f.Kind = what + ":" + f.Kind
+			return f
+		}
+		rec.Stat("bytes_verified_c2t:"+carrier, up)
+		rec.Stat("bytes_verified_t2c:"+carrier, down)
+		return nil
+	}
+	k := uint64(rec.Seed())*7919 + 5
+	f := one("long-upload", total, 0, k)
+	if f == nil {
+		f = one("after-the-wrap", 65537, 65537, k+2)
+	}
+	if f != nil && f.Inconclusive {
+		rec.Inconclusive(f.Kind, c)
+		return
+	}
+	rec.Case(fmt.Sprintf("aged/%s/%d", carrier, total), true)
+	rec.Seen("tuple(carrier,len-class,write-size,direction)", carrier+"|aged-session|32768|c2t")
+	if f != nil {
+		rec.Violation(carrier+":unix:aged-session:"+f.Kind, c, f.Info)
+		return
+	}
+	rec.Stat("aged_sessions_completed:"+carrier, 1)
+}
+
 // runResidues: one logical connection; writes of 1, 2, 3, ... maxN bytes, each delivered before the next is written (so
 // that every write travels as a frame of its own): every message length the carrier's framing, fragmentation or name
 // encoding can see occurs once per direction.
@@ -681,6 +770,9 @@ func TestVerifC01(t *testing.T) {
 			case strings.HasPrefix(sc.Scenario, "long-lived:"):
 				runLongLived(rec, sc.Carrier, sc.Scenario[len("long-lived:"):], time.Duration(sc.Seconds*float64(time.Second)))
 				return
+			case sc.Scenario == "aged-session":
+				runAged(rec, sc.Carrier, 14<<20)
+				return
 			case sc.Scenario == "slow-one-way":
 				runSlow(rec, sc.Carrier, time.Duration(sc.SecondsEach*float64(time.Second)))
 				return
@@ -738,6 +830,9 @@ func TestVerifC01(t *testing.T) {
 			items = append(items, item{c, "sizes"})
 		}
 	}
+	if extras {
+		items = append(items, item{"dns", "aged"})
+	}
 	for _, x := range []item{{"ws", "long:busy"}, {"ws", "long:paused"}, {"tcp", "long:paused"}, {"udp", "long:busy"}, {"wss", "long:paused"}} {
 		if extras {
 			items = append(items, x)
@@ -754,6 +849,10 @@ func TestVerifC01(t *testing.T) {
 		}
 		if strings.HasPrefix(it.Lst, "many-short:") {
 			runManyShort(rec, it.Carrier, it.Lst[len("many-short:"):], rec.Pick(6000, 40000))
+			continue
+		}
+		if it.Lst == "aged" {
+			runAged(rec, it.Carrier, 14<<20)
 			continue
 		}
 		if strings.HasPrefix(it.Lst, "long:") {
